@@ -112,13 +112,15 @@ HTML_TAGS = ["a", "b", "i", "p", "div", "span", "table", "tr", "td", "th", "tbod
              "rt", "rp", "svg", "math", "html", "head", "body", "frameset", "frame", "applet", "marquee", "object",
              "listing", "image", "isindex", "template", "main", "section", "address", "base", "embed", "area"]
 FOREIGN_TAGS = ["svg", "math", "foreignObject", "desc", "title", "mi", "mo", "mn", "ms", "mtext", "annotation-xml",
-                "g", "path", "circle", "mglyph", "malignmark", "style", "script", "font", "a"]
+                "g", "path", "circle", "mglyph", "malignmark", "style", "script", "font", "a",
+                "param", "source", "input", "link", "area", "col", "track", "base"]   # void names in foreign content
 ATTR_SRC = [' id=x', ' class="a b"', " title='q'", ' href="http://e/x?a=1&b=2"', ' checked', ' disabled=disabled',
             ' type=hidden', ' encoding=text/html', ' color=red', ' xlink:href="#a"', ' xml:lang=en', ' A=1 a=2',
             ' style="color: red"', ' data-x="<>&"', " v='\"'", ' charset=utf-8', ' http-equiv=content-type content="text/html; charset=x"',
             ' onclick="x"', ' definitionurl=x', ' x="&amp;&lt;"', ' src=javascript:1']
 TEXT_SRC = ["x", "hello world", " ", "\n", "  \t\n ", "&amp;", "&lt;b&gt;", "&notit;", "&#x41;", "&#0;", "&#x80;", "&bogus;", "&",
-            "<", ">", "a &#32; b", "é", "\U0001F600", "\x00", "--", "]]>", "\x0c", "=\"'`"]
+            "<", ">", "a &#32; b", "é", "\U0001F600", "\x00", "--", "]]>", "\x0c", "=\"'`",
+            "\u00a0x", "y\u00a0", "\u2003", "&nbsp; z &nbsp;", "\u3000w\u000b", "\x1c"]
 MISC_SRC = ["<!-- c -->", "<!---->", "<!-- a--b -->", "<!>", "<?pi?>", "<![CDATA[x]]>", "<!DOCTYPE html>",
             '<!DOCTYPE html PUBLIC "-//W3C//DTD HTML 4.01//EN" "http://www.w3.org/TR/html4/strict.dtd">',
             "<!doctype html SYSTEM 'about:legacy-compat'>", "</", "</ >", "<a/>", "<br/>", "< "]
